@@ -136,7 +136,7 @@ pub fn minimise(t: &Trace, prop: &str, check: &str, budget: usize) -> (Trace, us
     let mut events = t.events.clone();
     let mut nodes = t.nodes.clone();
     let mut used = 0usize;
-    let mut test = |nodes: &[NodeSpec], evs: &[Event], used: &mut usize| -> bool {
+    let test = |nodes: &[NodeSpec], evs: &[Event], used: &mut usize| -> bool {
         *used += 1;
         match std::panic::catch_unwind(std::panic::AssertUnwindSafe(|| exec(nodes, evs, t.seed, prop, false))) {
             Ok(Some(r)) => has_fingerprint(&r, prop, check),
